@@ -289,8 +289,30 @@ func (h *hostile) check(what string, sig string) {
 	}
 }
 
+// repair puts back what hostile but legal requests of earlier sessions took away from the scratch tree (a rename
+// or remove of the directory and files the states are built on): every session starts from the same tree.
+func (h *hostile) repair() {
+	if h.root == "" {
+		return
+	}
+	for _, p := range []string{"sub", "sub/deep", "sub/inner.txt", "listing", "file05xxxxxxxxxxxxxxx", "file03xxxxxxxxx", "file01xxx"} {
+		if fi, err := os.Lstat(filepath.Join(h.root, p)); err != nil || (strings.HasPrefix(p, "file") && fi.IsDir()) || (!strings.Contains(p, ".") && !strings.HasPrefix(p, "file") && !fi.IsDir()) {
+			_ = os.RemoveAll(filepath.Join(h.root, p))
+			_ = os.Chmod(h.root, 0o755)
+			_ = mkTree(h.root)
+			h.res.Count("scratch_tree_repairs", 1)
+			break
+		}
+	}
+	_ = os.Chmod(filepath.Join(h.root, "sub"), 0o755)
+	_ = os.Chmod(filepath.Join(h.root, "listing"), 0o755)
+	_ = os.Chmod(filepath.Join(h.root, "file05xxxxxxxxxxxxxxx"), 0o644)
+	_ = os.Chmod(filepath.Join(h.root, "file03xxxxxxxxx"), 0o644)
+}
+
 // prepare brings fid 5 of a fresh hostile connection into the named state; returns the fid number to attack.
 func (h *hostile) prepare(c *CConn, state string, msize uint32) (uint32, bool) {
+	h.repair()
 	r, err := c.Version(msize, h.ver(), W)
 	if err != nil || r.Msg == nil || r.Msg.Type != wire.Rversion {
 		return 0, false
@@ -385,6 +407,18 @@ func attacks(f uint32, L uint32, dotu bool) []attack {
 			w[i] = "sub"
 		}
 		add(fmt.Sprintf("Twalk/n%d", k), &wire.Msg{Type: wire.Twalk, Fid: f, Newfid: 6, Wname: w})
+	}
+	// long walks whose every element resolves (a server-side limit of 16 elements is the server's to enforce)
+	for _, k := range []int{16, 17, 18, 64, 500} {
+		dots := make([]string, k)
+		updown := make([]string, k)
+		for i := range dots {
+			dots[i] = "."
+			updown[i] = []string{"sub", ".."}[i%2]
+		}
+		add(fmt.Sprintf("Twalk/dots%d", k), &wire.Msg{Type: wire.Twalk, Fid: f, Newfid: 6, Wname: dots})
+		add(fmt.Sprintf("Twalk/updown%d", k), &wire.Msg{Type: wire.Twalk, Fid: f, Newfid: 6, Wname: updown})
+		add(fmt.Sprintf("Twalk/dots%d/inplace", k), &wire.Msg{Type: wire.Twalk, Fid: f, Newfid: f, Wname: dots})
 	}
 	add("Twalk/to-self-occupied", &wire.Msg{Type: wire.Twalk, Fid: f, Newfid: 0, Wname: []string{}})
 	add("Twalk/newfid-nofid", &wire.Msg{Type: wire.Twalk, Fid: f, Newfid: wire.NOFID, Wname: []string{}})
